@@ -1,10 +1,20 @@
 import Driver.Proto
 import Driver.Ops.Update
+import Driver.Ops.Tensors
+import Driver.Ops.Drex
+import Driver.Ops.Discrete
+import Driver.Ops.Diag
+import Driver.Ops.Scsv
 /-! Line-protocol driver over the executable models (ModelF = Float instantiation, ModelD).
 One request per line, one response per line. Each area registers a handler below. -/
 
 def handlers : List (List String → Option String) := [
-  Ops.Update.handle
+  Ops.Tensors.handle,
+  Ops.ScsvOps.handle,
+  Ops.Diag.handle,
+  Ops.Update.handle,
+  Ops.Drex.handle,
+  Ops.Discrete.handle
 ]
 
 def handle (toks : List String) : String :=
